@@ -77,6 +77,10 @@ func (fc *FnCtx) execInstr(fr *frame, st *State, in ssa.Instruction, b *ssa.Basi
 		sz := fc.val(x.Size)
 		fc.oblige(st, "makechan", app("<=", "0", sz.T), x.Pos(), "make(chan, n): n >= 0")
 		r := fc.newRef(st)
+		fc.assume(st, fc.sorts.TypeInv(x.Type(), r, ""))
+		if fc.eng.ghosts["ChClosed"] != nil && !fc.eng.lockMode {
+			fc.assume(st, not(app("select", fc.heapGet(st, fc.ghostKey("ChClosed")), r)))
+		}
 		fc.regs[x] = fc.mkVal(r, x.Type())
 	case *ssa.MakeInterface:
 		v := fc.val(x.X)
@@ -519,10 +523,17 @@ func (fc *FnCtx) execLookup(st *State, x *ssa.Lookup) {
 		val := ite(has, app("select", app("select", fc.heapGet(st, vl), v.T), k.T), fc.sorts.Zero(m.Elem()))
 		// a nil map reads as empty
 		has = and(not(eq(v.T, "0")), has)
+		var mvT string
 		if x.CommaOk {
-			fc.regs[x] = Val{Tuple: []Val{fc.mkVal(fc.sc.Define("mv", fc.sorts.SortOf(m.Elem()), val), m.Elem()), fc.mkVal(fc.sc.Define("mok", "Bool", has), types.Typ[types.Bool])}, Ty: x.Type(), Sort: "Tuple"}
+			mvT = fc.sc.Define("mv", fc.sorts.SortOf(m.Elem()), val)
+			fc.regs[x] = Val{Tuple: []Val{fc.mkVal(mvT, m.Elem()), fc.mkVal(fc.sc.Define("mok", "Bool", has), types.Typ[types.Bool])}, Ty: x.Type(), Sort: "Tuple"}
 		} else {
-			fc.regs[x] = fc.mkVal(fc.sc.Define("mv", fc.sorts.SortOf(m.Elem()), ite(has, val, fc.sorts.Zero(m.Elem()))), m.Elem())
+			mvT = fc.sc.Define("mv", fc.sorts.SortOf(m.Elem()), ite(has, val, fc.sorts.Zero(m.Elem())))
+			fc.regs[x] = fc.mkVal(mvT, m.Elem())
+		}
+		// values held by a map are well-typed values (lengths >= 0, references below the allocation mark)
+		if isCheapInv(m.Elem()) {
+			fc.assume(st, fc.sorts.TypeInv(m.Elem(), mvT, st.alloc))
 		}
 		return
 	}
